@@ -267,4 +267,53 @@ MUTANTS = [
       "@dispatch(cond=lambda f, A, alg: A.isa(SelfAdjoint))\ndef apply_unary(f: Callable, A: LinearOperator, alg: Eigh):"),
     m("C19-diag-rule-densifies", "C19", "structural-rule@diag(Kronecker)", DIAG, "    ds = [diag(M, k, alg) for M in A.Ms]\n    # compute outer product of the diagonals\n    slices = [[None] * i + [slice(None)] + [None] * (len(ds) - i - 1) for i in range(len(ds))]\n    return product(",
       "    if len(A.Ms) > 3:\n        return A.xnp.diag(A.to_dense(), diagonal=k)\n    ds = [diag(M, k, alg) for M in A.Ms]\n    # compute outer product of the diagonals\n    slices = [[None] * i + [slice(None)] + [None] * (len(ds) - i - 1) for i in range(len(ds))]\n    return product("),
+    # ---------------------------------------------------------------- round-2 strengthenings (hand-written twins of the seeded changes and their silent counterparts)
+    m("C08-probe-stops-early", "C08", "probe-coverage@exact_diag:loop", DEST, "    diag_sum = 0.\n    for i in range(0, A.shape[0], bs):", "    diag_sum = 0.\n    for i in range(0, A.shape[0] - abs(k), bs):"),
+    m("C08-probe-silent-local-dim", "C08", "", DEST, "    diag_sum = 0.\n    for i in range(0, A.shape[0], bs):", "    diag_sum = 0.\n    n_cols = A.shape[-1]\n    for i in range(0, n_cols, bs):", silent=True),
+    m("C02-adjoint-subclasses-transpose", "C02", "kind-hierarchy@Adjoint<Transpose", OPS, "class Adjoint(LinearOperator):", "class Adjoint(Transpose):"),
+    m("C20-sliced-shortcut", "C20", "slice-buffers@Sliced._matmat:shortcut", OPS, "        start_slices, end_slices = self.slices\n        device = xnp.get_device(X)\n        dtype = xnp.promote_types(self.dtype, X.dtype)\n        Y = xnp.zeros(shape=(self.A.shape[-1], X.shape[-1]), dtype=dtype, device=device)",
+      "        start_slices, end_slices = self.slices\n        if self.shape[-1] == self.A.shape[-1]:\n            return (self.A @ X)[start_slices]\n        device = xnp.get_device(X)\n        dtype = xnp.promote_types(self.dtype, X.dtype)\n        Y = xnp.zeros(shape=(self.A.shape[-1], X.shape[-1]), dtype=dtype, device=device)"),
+    m("C12-cap-clamped-to-n", "C12", "scale-homogeneity@cg:cap-origin", CG, "    xnp = A.xnp\n    mult = xnp.norm(b, axis=-2, keepdims=True)", "    xnp = A.xnp\n    max_iters = min(max_iters, A.shape[-1])\n    mult = xnp.norm(b, axis=-2, keepdims=True)"),
+    m("C12-absolute-floor", "C12", "scale-homogeneity@cg:stopping-test", CG, "init_val = initialize(A=A, b=b_norm, preconditioner=preconditioner, x0=x0, xnp=xnp)", "init_val = initialize(A=A, b=b, preconditioner=preconditioner, x0=x0, xnp=xnp)"),
+    m("C12-solution-not-rescaled", "C12", "scale-homogeneity@cg:solution", CG, "    return state[0] * mult, state[2] * mult, state[1], info", "    return state[0], state[2] * mult, state[1], info"),
+    m("C12-silent-relative-only", "C12", "", CG, "    tol = tol * xnp.norm(r0, axis=-2, keepdims=True) + tol", "    tol = tol * (xnp.norm(r0, axis=-2, keepdims=True) + 1.)", silent=True),
+    m("C06-cg-absolute-floor", "C06", "relative-tolerance@cg:stopping-test", CG, "init_val = initialize(A=A, b=b_norm, preconditioner=preconditioner, x0=x0, xnp=xnp)", "init_val = initialize(A=A, b=b, preconditioner=preconditioner, x0=x0, xnp=xnp)"),
+    m("C14-buffers-typed-by-start-vector", "C14", "buffer-dtype@lanczos->init_lanczos", LAN, "    init_val = init_lanczos(xnp, rhs, max_iters=max_iters, dtype=A.dtype)", "    init_val = init_lanczos(xnp, rhs, max_iters=max_iters, dtype=rhs.dtype)"),
+    m("C14-silent-promoted-buffers", "C14", "", LAN, "    init_val = init_lanczos(xnp, rhs, max_iters=max_iters, dtype=A.dtype)", "    init_val = init_lanczos(xnp, rhs, max_iters=max_iters, dtype=xnp.promote_types(A.dtype, rhs.dtype))", silent=True),
+    m("C15-buffers-typed-by-start-vector", "C15", "buffer-dtype@arnoldi->init_arnoldi", ARN, "        init_val = init_arnoldi(xnp, rhs, max_iters=max_iters, dtype=A.dtype)", "        init_val = init_arnoldi(xnp, rhs, max_iters=max_iters, dtype=rhs.dtype)"),
+    dict(id="C07-adjoint-sign-not-conjugated", property="C07", expect="rule-algebra@slogdet(Adjoint|Transpose", edits=[
+        dict(file=LOGDET, old="from cola.ops.operators import (\n    BlockDiag,", new="from cola.ops.operators import (\n    Adjoint,\n    Transpose,\n    BlockDiag,"),
+        dict(file=LOGDET, old="@dispatch\ndef slogdet(A: Identity, log_alg: Algorithm, trace_alg: Algorithm):", new="@dispatch\ndef slogdet(A: Transpose | Adjoint, log_alg: Algorithm, trace_alg: Algorithm):\n    return slogdet(A.A, log_alg, trace_alg)\n\n\n@dispatch\ndef slogdet(A: Identity, log_alg: Algorithm, trace_alg: Algorithm):")]),
+    dict(id="C07-silent-transpose-rule", property="C07", expect="", silent=True, edits=[
+        dict(file=LOGDET, old="from cola.ops.operators import (\n    BlockDiag,", new="from cola.ops.operators import (\n    Transpose,\n    BlockDiag,"),
+        dict(file=LOGDET, old="@dispatch\ndef slogdet(A: Identity, log_alg: Algorithm, trace_alg: Algorithm):", new="@dispatch\ndef slogdet(A: Transpose, log_alg: Algorithm, trace_alg: Algorithm):\n    return slogdet(A.A, log_alg, trace_alg)\n\n\n@dispatch\ndef slogdet(A: Identity, log_alg: Algorithm, trace_alg: Algorithm):")]),
+    m("C09-masked-spectrum", "C09", "dense-path@apply_unary(Callable,LinearOperator,Eigh)", UNARY, "    D = Diagonal(f(eigs))\n    return V @ D @ V.H", "    D = Diagonal(A.xnp.where(A.xnp.abs(eigs) > 1e-12, f(eigs), A.xnp.zeros_like(eigs)))\n    return V @ D @ V.H"),
+    m("C10-symmetrised-with-transpose", "C10", "decomposition-operand@eig(LinearOperator,int,str,Eigh)", EIGS, "    eig_vals, eig_vecs = A.xnp.eigh(A.to_dense())\n    return eig_vals[eig_slice], Stiefel(", "    dense = A.to_dense()\n    dense = (dense + dense.T) / 2\n    eig_vals, eig_vecs = A.xnp.eigh(dense)\n    return eig_vals[eig_slice], Stiefel("),
+    m("C10-silent-symmetrised-with-adjoint", "C10", "", EIGS, "    eig_vals, eig_vecs = A.xnp.eigh(A.to_dense())\n    return eig_vals[eig_slice], Stiefel(", "    dense = A.to_dense()\n    dense = (dense + dense.conj().T) / 2\n    eig_vals, eig_vecs = A.xnp.eigh(dense)\n    return eig_vals[eig_slice], Stiefel(", silent=True),
 ]
+
+
+# ---------------------------------------------------------------- seeded changes (sub-agent patches, /verif/seeded/<id>/patch.diff)
+# every seeded change that some check detected (seeded/detection_matrix.json) is replayed as a "must fire" mutant on the
+# scratch copy: the named property's check has to raise the recorded obligation again
+def _seed_mutants():
+    import json
+    import os
+    base = os.path.join(os.path.dirname(os.path.dirname(os.path.abspath(__file__))), "seeded")
+    try:
+        matrix = json.load(open(os.path.join(base, "detection_matrix.json")))
+    except OSError:
+        return []
+    out = []
+    for sid, fired in sorted(matrix.items()):
+        if not isinstance(fired, dict):
+            continue
+        for prop, keys in sorted(fired.items()):
+            keys = [k for k in keys if not k.startswith("(exit 2")]
+            if not keys:
+                continue
+            out.append(dict(id=f"seed-{sid}-by-{prop}", property=prop, expect=keys[0].split("#")[0], edits=[], patch=os.path.join(base, sid, "patch.diff")))
+    return out
+
+
+MUTANTS += _seed_mutants()
